@@ -27,7 +27,7 @@ ASSUMPTIONS = [
     "twin = second parse of the same text, never operated on",
 ]
 OPS = ["nps", "nps", "nps", "subscript", "subscript", "subscript_get", "map_protocol", "bpm_protocol", "query", "query_bad",
-       "render", "compare", "hash", "derived", "copy", "track_reads"]
+       "render", "compare", "hash", "derived", "copy", "track_reads", "copy_use", "ordering"]
 
 
 def required(tier):
@@ -195,6 +195,55 @@ def do_op(chart, twin, name: str, rng) -> str:
         for i, d in present[:2]:
             copy.copy(chart.instrument_tracks[i][d])
         return "copy"
+    if name == "copy_use":
+        # read-only use THROUGH a copy: a shallow copy shares the tracks and events, so rates, subscripts, derived attributes and
+        # renderings asked of the copy reach the same objects (whether deep copies are possible is not stated; that using one leaves
+        # the original alone is)
+        for fn in (copy.copy, copy.deepcopy):
+            try:
+                c2 = fn(chart)
+            except Exception:  # noqa
+                continue
+            for i, d in present[:2]:
+                try:
+                    c2.notes_per_second(i, d)
+                    c2.notes_per_second(i, d, 0, 10**6)
+                except ValueError:
+                    pass
+                tr2 = c2.instrument_tracks[i][d]
+                tr2.last_note_end_timestamp, tr2.header_tag
+                [(n.end_tick, n.end_timestamp) for n in tr2.note_events[:20]]
+            try:
+                c2[rng.choice(list(I))]
+            except KeyError:
+                pass
+            str(c2), repr(c2)
+            c2.sync_track.bpm_events.timestamp_at_tick_no_optimize_return(be[-1].tick + 7)
+            c2 == chart, chart == c2
+        return "copy_use"
+    if name == "ordering":
+        # ordering and container protocols on events and tracks (each may be unsupported: TypeError is an answer)
+        evs = all_events(chart)
+        for fn in (sorted, min, max):
+            try:
+                fn(evs[:30])
+            except (TypeError, ValueError):
+                pass
+        try:
+            d_ = {ev: k for k, ev in enumerate(evs[:60])}
+            [d_[ev] for ev in evs[:60]]
+            evs[0] in set(evs[:60])
+        except (TypeError, IndexError):
+            pass
+        for i, d in present:
+            tr = chart.instrument_tracks[i][d]
+            bool(tr), bool(tr.note_events), bool(chart.instrument_tracks[i])
+            try:
+                sorted(tr.note_events, key=lambda n: n.tick), tr.note_events.index(tr.note_events[-1]), tr.note_events.count(tr.note_events[0])
+            except (TypeError, IndexError, ValueError, AttributeError):
+                pass
+        bool(chart.metadata), bool(be), bool(chart.sync_track)
+        return "ordering"
     if name == "track_reads":
         for i, d in present:
             tr = chart.instrument_tracks[i][d]
